@@ -262,6 +262,25 @@ M('c12_override_ignored', 'C12', 'cell_type_mapper/marker_selection/selection_pi
   "                    if chosen_parent in n_per_utility_override:\n                        this_n_per = min(n_per_utility, n_per_utility_override[chosen_parent])")
 
 
+# ---- mapping with on-the-fly markers (cli/map_to_on_the_fly_markers.py) -----------------------------
+OTF = 'cell_type_mapper/cli/map_to_on_the_fly_markers.py'
+M('c19_otf_no_cleanup', 'C19', OTF,
+  "        finally:\n            _clean_up(tmp_dir)\n",
+  "        finally:\n            pass\n")
+M('c19_otf_refmarkers_in_system_tmp', 'C19', OTF,
+  "            'tmp_dir': tmp_dir,\n            'query_path': self.args['query_path'],\n            'n_processors': self.args['n_processors'],\n            'drop_level': self.args['drop_level'],\n            'cloud_safe'",
+  "            'query_path': self.args['query_path'],\n            'n_processors': self.args['n_processors'],\n            'drop_level': self.args['drop_level'],\n            'cloud_safe'")
+M('c20_otf_config_raw', 'C20', OTF,
+  "                if self.args['cloud_safe']:\n                    metadata_config = sanitize_paths(metadata_config)\n",
+  "                if False:\n                    metadata_config = sanitize_paths(metadata_config)\n")
+M('c18_otf_query_markers_ignore_query', 'C18', OTF,
+  "            'output_path': query_marker_path,\n            'query_path': self.args['query_path'],",
+  "            'output_path': query_marker_path,\n            'query_path': None,")
+M('c14_otf_swallow_mapping_failure', 'C14', OTF,
+  "        mapping_runner.run()\n        log.info(\"MAPPING FROM ON-THE-FLY",
+  "        try:\n            mapping_runner.run()\n        except RuntimeError:\n            pass\n        log.info(\"MAPPING FROM ON-THE-FLY")
+
+
 def run_mutant(name, tier='quick'):
     m = MUTANTS[name]
     scratch = '/tmp/ctm-mut-%d-%s' % (os.getpid(), name)
